@@ -68,7 +68,7 @@ class C03(Prop):
                         k = "getnext"
                     op = {"id": opid, "s": s, "op": "walk", "method": k, "oid": rng.choice(["1.3.6.1", "1.3.6", "1.3"] + [r[0] for r in rows[:3]]), "limit": rng.choice([1, 3, 8])}
                     if k == "getbulk" and rng.random() < 0.7:
-                        op["max_rep"] = rng.choice([1, 2, 3, 10, 127, 128, 255, 256, 65535, 2**31 - 1])
+                        op["max_rep"] = rng.choice([1, 2, 3, 10, 127, 128, 255, 256, 65535, 2**31 - 1, 2**31 - 1, 2**31, 2**32 - 1, 2**32 + 5, 2**40, 2**62])
                 mine.append(op)
                 # history-making faults on the first request of the op
                 r = rng.random()
